@@ -1,4 +1,4 @@
-CONSTANTS MaxTxn = 3 MaxRec = 4 MaxFaults = 2 Reload = TRUE Bump = TRUE OnePerRequest = FALSE Driver = FALSE
+CONSTANTS MaxTxn = 3 MaxRec = 4 MaxFaults = 2 AbortAttempted = TRUE Reload = TRUE Bump = TRUE OnePerRequest = FALSE Driver = FALSE
 SPECIFICATION Spec
 VIEW view
 INVARIANTS CommitMeansVisible AbortMeansNever FailedNeverVisible NoOrphan
